@@ -428,6 +428,7 @@ package lang
 //@ ghost $isName string
 //@ ghost $nmatch int
 //@ ghost $nRuns int
+//@ ghost $epErr error
 //@ ghost $nRun int
 //@ ghost $nSkip int
 //@ ghost $rsErr error
@@ -1106,6 +1107,19 @@ package lang
 //@   loop 6 invariant ready: !$exitSeen && $selParsed == len(rootSelectors) && drvOK(&ev) && !$faulted && $mark <= $alloc
 //@   loop 7 invariant ready: !$exitSeen && $selParsed == len(rootSelectors) && drvOK(&ev) && !$faulted && $mark <= $alloc
 //@   loop 8 invariant[C03] ready-and-all-input-consumed: drvOK(&ev) && !$faulted && !$pendingFile && $mark <= $alloc
+//@   init $epErr = nil
+//@   after Evaluator.evalStatement: $epErr = ret0
+//@   after Evaluator.evalPatternRules: $epErr = ret0
+//@   after EvalExpression: $epErr = ret1
+//@   ensures[C01,C07,C11] exit-ends-the-run-normally-and-a-fault-is-returned-as-raised: ($epErr == errExit ==> err == nil) && ($epErr != nil && $epErr != errExit && $epErr != errNext ==> err == $epErr)
+//@   loop 1 invariant[C07,C11] every-step-so-far-ended-normally-or-by-next: $epErr == nil || $epErr == errNext
+//@   loop 2 invariant[C07,C11] every-step-so-far-ended-normally-or-by-next: $epErr == nil || $epErr == errNext
+//@   loop 3 invariant[C07,C11] every-step-so-far-ended-normally-or-by-next: $epErr == nil || $epErr == errNext
+//@   loop 4 invariant[C07,C11] every-step-so-far-ended-normally-or-by-next: $epErr == nil || $epErr == errNext
+//@   loop 5 invariant[C07,C11] every-step-so-far-ended-normally-or-by-next: $epErr == nil || $epErr == errNext
+//@   loop 6 invariant[C07,C11] every-step-so-far-ended-normally-or-by-next: $epErr == nil || $epErr == errNext
+//@   loop 7 invariant[C07,C11] every-step-so-far-ended-normally-or-by-next: $epErr == nil || $epErr == errNext
+//@   loop 8 invariant[C07,C11] every-step-so-far-ended-normally-or-by-next: $epErr == nil || $epErr == errNext
 //@   ensures[C01] evaluator-returned: (err == nil || isRT(err) || isJsonErr(err)) ==> result0 != nil
 
 // ---------------------------------------------------------------- parser (C01, C06, C07, C11, C13)
